@@ -227,6 +227,8 @@ MO = 'sedfitter/models.py'
 SO = 'sedfitter/source/source.py'
 
 MUST_FIRE = [
+    ('log-flux buffer inherits the caller dtype', [(SO, "log_flux = np.zeros(self.flux.shape, dtype=np.float64)", "log_flux = np.zeros_like(self.flux)")]),
+    ('weight buffer created as integers', [(SO, "weight = np.zeros(self.valid.shape, dtype=np.float64)", "weight = np.zeros(self.valid.shape, dtype=int)")]),
     ('weight set for limits', [(SO, "        log_flux[r] = np.log10(self.flux[r])\n        log_error[r] = self.error[r]\n", "        log_flux[r] = np.log10(self.flux[r])\n        log_error[r] = self.error[r]\n        weight[r] = 1.\n")]),
     ('weight set for flag 9', [(SO, "        log_error[r] = np.abs(self.error[r] / self.flux[r]) / np.log(10.)\n\n        return", "        log_error[r] = np.abs(self.error[r] / self.flux[r]) / np.log(10.)\n        weight[r] = 1. / log_error[r] ** 2.\n\n        return")]),
     ('penalty sign', [(FR, "            reset = model[:, j] < data[:, j]\n            chi2_array[:, j][reset] = -2. * np.log(1. - error[j])", "            reset = model[:, j] < data[:, j]\n            chi2_array[:, j][reset] = 2. * np.log(1. - error[j])")]),
@@ -247,6 +249,8 @@ MUST_FIRE = [
     ('upper limits treated like lower in chi2 mask', [(FR, "        for j in np.where(valid == 3)[0]:\n            reset = model[:, j] > data[:, j]", "        for j in np.where(valid >= 3)[0]:\n            reset = model[:, j] > data[:, j]")]),
 ]
 MUST_SILENT = [
+    ('buffers created with zeros_like and an explicit float dtype', [(SO, "log_flux = np.zeros(self.flux.shape, dtype=np.float64)", "log_flux = np.zeros_like(self.flux, dtype=float)")]),
+    ('buffers created with the default dtype', [(SO, "log_error = np.zeros(self.error.shape, dtype=np.float64)", "log_error = np.zeros(self.error.shape)")]),
     ('redundant flag-0 zeroing removed', [(FR, "        chi2_array[:, valid == 0] = 0.\n", "        pass\n")]),
     ('mask spelled with np.isin-free or', [(SO, "r = (self.valid == 2) | (self.valid == 3)", "r = (self.valid == 3) | (self.valid == 2)")]),
     ('log via ln/ln10', [(SO, "        log_flux[r] = np.log10(self.flux[r])\n        log_error[r] = self.error[r]\n", "        log_flux[r] = np.log(self.flux[r]) / np.log(10.)\n        log_error[r] = self.error[r]\n")]),
